@@ -451,6 +451,58 @@ func checkC14(p *Program, r *Report) {
 		}
 		okL := size == 64 && len(cps) == 2 && cps[0] == (cp{0, "filterhash"}) && cps[1] == (cp{32, "param1"})
 		got := fmt.Sprintf("%v", cps)
+		if !(okL && okD) {
+			// append form: DoubleHashH(append(append(base[:0], filterHash[:]...), prevHeader[:]...))
+			classify := func(v ssa.Value) string {
+				for {
+					sl, ok := v.(*ssa.Slice)
+					if !ok {
+						break
+					}
+					v = sl.X
+				}
+				if al, ok := v.(*ssa.Alloc); ok {
+					if w := singleStore(al); w != nil {
+						if pa, ok := w.(*ssa.Parameter); ok {
+							return fmt.Sprintf("param%d", paramIndex(mh, pa))
+						}
+						if ex, ok := w.(*ssa.Extract); ok {
+							if c, ok := ex.Tuple.(*ssa.Call); ok && c.Call.StaticCallee() != nil && c.Call.StaticCallee().Name() == "GetFilterHash" {
+								return "filterhash"
+							}
+						}
+					}
+				}
+				return "?"
+			}
+			lcx := NewLinCtx(p, mh)
+			for _, b := range mh.Blocks {
+				for _, in := range b.Instrs {
+					c, ok := in.(*ssa.Call)
+					if !ok || c.Call.StaticCallee() == nil || !strings.HasSuffix(c.Call.StaticCallee().String(), "chainhash.DoubleHashH") {
+						continue
+					}
+					var pieces []ssa.Value
+					cur := c.Call.Args[0]
+					for {
+						ap, ok := cur.(*ssa.Call)
+						if !ok || !isBuiltin(&ap.Call, "append") || len(ap.Call.Args) != 2 {
+							break
+						}
+						pieces = append([]ssa.Value{ap.Call.Args[1]}, pieces...)
+						cur = ap.Call.Args[0]
+					}
+					if l0 := lcx.LenLin(cur); len(pieces) != 2 || !l0.isConst() || l0.c != 0 {
+						continue
+					}
+					l1, l2 := lcx.LenLin(pieces[0]), lcx.LenLin(pieces[1])
+					got = fmt.Sprintf("append chain: %s (%s bytes) ‖ %s (%s bytes)", classify(pieces[0]), lcx.Format(l1), classify(pieces[1]), lcx.Format(l2))
+					if l1.isConst() && l1.c == 32 && l2.isConst() && l2.c == 32 && classify(pieces[0]) == "filterhash" && classify(pieces[1]) == "param1" {
+						okL, okD, size = true, true, 64
+					}
+				}
+			}
+		}
 		r.Add("C14.hash", FnName(mh), "filter header is the double SHA-256 of filter hash ‖ previous header", mh.Pos(), okL && okD, fmt.Sprintf("%d-byte buffer; copies %s", size, got))
 	} else {
 		r.Unresolved("C14.hash", "builder.MakeHeaderForFilter")
@@ -547,7 +599,7 @@ func checkC14(p *Program, r *Report) {
 			r.Add("C14.latch", FnName(m), fmt.Sprintf("parameter above %d latches an error", wantK), bo.Pos(), sets && k == wantK, fmt.Sprintf("bound %d", k))
 		}
 	}
-	r.Floor("C14.latch", 12)
+	r.Floor("C14.latch", 8)
 	memoCoherence(p, r, "C14.memo", "gcs/builder", "GCSBuilder", nil)
 	gcsWriterRule(p, r, "C14.writer")
 }
